@@ -35,6 +35,9 @@ pub fn render_header(header: &sam::Header) -> io::Result<String> {
 pub fn render_record(header: &sam::Header, rec: &dyn sam::alignment::Record) -> io::Result<String> {
     let mut w = sam::io::Writer::new(Vec::new());
     w.write_alignment_record(header, rec)?;
+    // derived accessors (as the indexers and region queries use them): must not panic
+    let _ = rec.alignment_span();
+    let _ = rec.alignment_end();
     let mut v = w.into_inner();
     if v.last() == Some(&b'\n') {
         v.pop();
